@@ -299,6 +299,10 @@ def ev(e, env):
             return fn(*args)
         if e.func.id == "next" and len(args) == 2:
             return next(iter(args[0]), args[1])
+        if e.func.id == "next" and len(args) == 1 and isinstance(args[0], (tuple, list)):
+            if not args[0]:
+                raise Unknown("next() of an empty sequence")
+            return args[0][0]
     if isinstance(e, ast.Call) and not e.keywords and env.get("__index__") is not None:
         # a call of a small pure helper of the library is evaluated from the helper's own source
         func = e.func
